@@ -1,12 +1,28 @@
 import Zlink.Proofs.ServerFair
 import Zlink.Proofs.ServerQuiet
 import Zlink.Proofs.ServerFairRun
+import Zlink.Proofs.SelectVisit
 /-! # C18 — Round-robin service: a flooding client cannot starve the others
 
 Models: `Zlink/Model/Select.lean` (`server/select_all.rs`: the rotated scan) and the server loop's use of it
 (`Zlink/Model/Server.lean`: `scanCalls`, `lastCall := some idx`, next start `idx + 1`). -/
 namespace C18
 open Sel
+
+/-- **A pending `SelectAll` has polled every future.** `Sel.visited` lists the indices `SelectAll::poll` polls, in
+    order, up to and including the first ready one. If none is ready, every index is in the list: every connection's
+    receive (every reply stream's `next()`) was polled in that round and holds the task's waker - a waiting call can
+    only stay unserved because it has not arrived, never because nobody would notice it (the premise of `Srv.wakes`,
+    C08_no_lost_wakeup). If one is ready, it is the last one polled: the round ends with the winner. -/
+theorem C18_pending_polled_everybody (n start : Nat) (ready : Nat → Bool) (hn : 0 < n) :
+    (scan n start ready n = none → ∀ x, x < n → x ∈ visited n start ready n) ∧
+    (∀ w, scan n start ready n = some w → (visited n start ready n).getLast? = some w) :=
+  ⟨scan_none_visits_all n start ready hn, fun w h => visited_last_is_winner n start ready n w h⟩
+
+/-- three futures, none ready, start at 2: polled in the order 2, 0, 1 -/
+example : visited 3 2 (fun _ => false) 3 = [2, 0, 1] := by decide
+/-- future 0 ready: the round polls 2, then 0, and stops -/
+example : visited 3 2 (fun i => i == 0) 3 = [2, 0] := by decide
 
 /-- The scan returns the ready index of **minimal rotation distance** from the start index. -/
 theorem C18_select_min (n start : Nat) (ready : Nat → Bool) (hn : 0 < n) (w : Nat)
